@@ -23,7 +23,7 @@ var callID = map[string]int{
 	"isClosed": 21, "writeVectorIndexes": 22, "writeDicts": 23, "writeThesauri": 24,
 	"mergeAndPersistInvertedSection": 25, "mergeAndPersistSynonymSection": 26, "flushSectionMetadata": 27,
 	"mergeAndWriteVectorIndexes": 28, "visitStoredFields": 29, "Write": 30,
-	"Lock": 31, "Unlock": 32, "closeActual": 33, "AddRef": 34, "DecRef": 35, "mergeSegmentBases": 36,
+	"Lock": 31, "Unlock": 32, "closeActual": 33, "AddRef": 34, "DecRef": 35, "mergeSegmentBases": 36, "VisitStoredFields": 37,
 }
 
 type skTarget struct {
@@ -36,7 +36,7 @@ var skTargets = []string{
 	"faissVectorIndexSection.Persist", "invertedTextIndexSection.Persist", "synonymIndexSection.Persist",
 	"faissVectorIndexSection.Merge", "invertedTextIndexSection.Merge", "synonymIndexSection.Merge",
 	"vectorIndexOpaque.mergeAndWriteVectorIndexes", "vectorIndexOpaque.writeVectorIndexes",
-	"Segment.AddRef", "Segment.DecRef", "Segment.Close", "ZapPlugin.Merge",
+	"Segment.AddRef", "Segment.DecRef", "Segment.Close", "ZapPlugin.Merge", "mergeStoredAndRemap",
 }
 
 func calleeName(x ast.Expr) string {
